@@ -289,8 +289,23 @@ impl<'a> P<'a> {
         if !ok {
             return self.err("malformed XML declaration (pseudo-attributes)");
         }
-        if !seen[0].1.starts_with("1.") {
-            return self.err("unsupported XML version");
+        // VersionNum ::= '1.' [0-9]+ ; EncName ::= [A-Za-z] ([A-Za-z0-9._] | '-')* ; SDDecl yes|no.
+        // The values are literals: no references, no '<'.
+        for (k, v) in &seen {
+            let raw_ok = match k.as_str() {
+                "version" => v
+                    .strip_prefix("1.")
+                    .is_some_and(|d| !d.is_empty() && d.bytes().all(|b| b.is_ascii_digit())),
+                "encoding" => {
+                    let mut b = v.bytes();
+                    b.next().is_some_and(|c| c.is_ascii_alphabetic())
+                        && b.all(|c| c.is_ascii_alphanumeric() || matches!(c, b'.' | b'_' | b'-'))
+                }
+                _ => v == "yes" || v == "no",
+            };
+            if !raw_ok {
+                return self.err(format!("malformed XML declaration ({k})"));
+            }
         }
         self.i += end + 2;
         Ok(())
@@ -405,8 +420,57 @@ impl<'a> P<'a> {
     }
 }
 
+// ---- cross-check sampler: (document, verdict) pairs handed to an independent parser (expat) ----
+
+static XCHECK_CAP: std::sync::atomic::AtomicUsize = std::sync::atomic::AtomicUsize::new(0);
+static XCHECK_LEN: std::sync::atomic::AtomicUsize = std::sync::atomic::AtomicUsize::new(0);
+static XCHECK_CALLS: std::sync::atomic::AtomicU64 = std::sync::atomic::AtomicU64::new(0);
+static XCHECK: std::sync::Mutex<Option<(std::collections::HashSet<u64>, Vec<(String, bool)>)>> =
+    std::sync::Mutex::new(None);
+
+/// keep up to `cap` distinct documents (and this parser's verdict on each) for the cross-check
+pub fn xcheck_enable(cap: usize) {
+    *XCHECK.lock().unwrap() = Some(Default::default());
+    XCHECK_LEN.store(0, std::sync::atomic::Ordering::SeqCst);
+    XCHECK_CAP.store(cap, std::sync::atomic::Ordering::SeqCst);
+}
+
+/// (number of parse_document calls, the kept sample)
+pub fn xcheck_take() -> (u64, Vec<(String, bool)>) {
+    XCHECK_CAP.store(0, std::sync::atomic::Ordering::SeqCst);
+    let kept = XCHECK.lock().unwrap().take().map(|(_, v)| v).unwrap_or_default();
+    (XCHECK_CALLS.load(std::sync::atomic::Ordering::SeqCst), kept)
+}
+
+fn xcheck_record(s: &str, ok: bool) {
+    use std::sync::atomic::Ordering::Relaxed;
+    XCHECK_CALLS.fetch_add(1, Relaxed);
+    let cap = XCHECK_CAP.load(Relaxed);
+    if cap == 0 || XCHECK_LEN.load(Relaxed) >= cap || s.len() > 64 * 1024 {
+        return;
+    }
+    use std::hash::{Hash, Hasher};
+    let mut h = std::collections::hash_map::DefaultHasher::new();
+    s.hash(&mut h);
+    let h = h.finish();
+    if let Ok(mut g) = XCHECK.lock() {
+        if let Some((seen, kept)) = g.as_mut() {
+            if kept.len() < cap && seen.insert(h) {
+                kept.push((s.to_string(), ok));
+                XCHECK_LEN.store(kept.len(), Relaxed);
+            }
+        }
+    }
+}
+
 /// Parse a complete document; returns the root element.
 pub fn parse_document(s: &str) -> Result<Elem, XmlError> {
+    let r = parse_document_inner(s);
+    xcheck_record(s, r.is_ok());
+    r
+}
+
+fn parse_document_inner(s: &str) -> Result<Elem, XmlError> {
     let mut p = P { s, i: 0 };
     if p.starts("<?xml") && matches!(s[5..].chars().next(), Some(' ' | '\t' | '\n' | '\r')) {
         p.i += 5;
